@@ -626,8 +626,12 @@ func judge(r *ev.Run, pr *ProbeResult, walked, walkedTpl, abandoned map[string]b
 		where := fmt.Sprintf("[%s %s] %s %s (route %s) Authorization=%s(%s) other headers: %s", cfg.Name, rec.Via,
 			rec.Method, rec.Path, tpl, rec.Variant, v.Class, rec.Combo)
 		entered := rec.DHandler > 0
-		dbTouched := rec.DReg > 0
-		if rec.Method == "OPTIONS" && rec.Status == 204 && !entered && rec.DReg == 0 && rec.DDB == 0 {
+		// look-up / database deltas are attributable only in the phases in which nothing may legitimately run (deny,
+		// pathvar): in the late / after phases a handler entered by the previous (lenient or right-credential) request
+		// may still be running and its look-ups fall into the next request's window; there the handler entry decides
+		quiet := rec.Phase == "deny" || rec.Phase == "pathvar"
+		dbTouched := quiet && rec.DReg > 0
+		if rec.Method == "OPTIONS" && rec.Status == 204 && !entered && !dbTouched && (!quiet || rec.DDB == 0) {
 			// a preflight answered by the CORS layer itself: nothing behind the credential check was reached
 			r.Outcome("options_answered_204_before_any_handler/" + v.Class)
 			continue
